@@ -591,3 +591,45 @@ package k8s
 //@     invariant ranges: piecesOK(res)
 //@     invariant ingress: forall k int :: {np.Spec.Ingress[k]} (0 <= k && k < len(np.Spec.Ingress)) ==> peersCovered(res, np.Spec.Ingress[k].From, len(np.Spec.Ingress[k].From))
 //@     invariant egress: forall k int :: {np.Spec.Egress[k]} (0 <= k && k <= rangeindex2) ==> peersCovered(res, np.Spec.Egress[k].To, len(np.Spec.Egress[k].To))
+
+// ---------------------------------------------------------------------------------------------
+// ANP / BANP rule ports, eval side (C03, C02): a (protocol, port) query is captured by a rule only if one of the rule's
+// port entries matches it - a named port meaning that name as declared by the DESTINATION pod
+// ---------------------------------------------------------------------------------------------
+
+//@ import apisv1a "sigs.k8s.io/network-policy-api/apis/v1alpha1"
+//@ fun protoOr(p v1.Protocol) string = if p == "" then "TCP" else p
+//@ pred validAP(ap apisv1a.AdminNetworkPolicyPort) = (ap.PortNumber != nil ==> (1 <= ap.PortNumber.Port && ap.PortNumber.Port <= 65535 && (ap.PortNumber.Protocol == "" || isProto(ap.PortNumber.Protocol))))
+//@     && (ap.PortRange != nil ==> (1 <= ap.PortRange.Start && ap.PortRange.End <= 65535 && (ap.PortRange.Protocol == "" || isProto(ap.PortRange.Protocol))))
+//@     && (ap.NamedPort != nil ==> allocated(ap.NamedPort))
+//@ pred validAPs(ports *[]apisv1a.AdminNetworkPolicyPort) = ports != nil ==> (forall k int :: {deref(ports)[k]} (0 <= k && k < len(deref(ports))) ==> validAP(deref(ports)[k]))
+// one port entry matches (q, n): by number, by range, or by the name the destination pod declares (first declaration wins)
+//@ fun anpRulePortMatch(ap apisv1a.AdminNetworkPolicyPort, dst Peer, q string, n int) bool =
+//@     if ap.PortNumber != nil then (q == protoOr(ap.PortNumber.Protocol) && n == ap.PortNumber.Port)
+//@     else (if ap.NamedPort != nil then namedMatch(dstPod(dst).Ports, deref(ap.NamedPort), q, n)
+//@     else (ap.PortRange != nil && q == protoOr(ap.PortRange.Protocol) && ap.PortRange.Start <= n && n <= ap.PortRange.End))
+//@ fun anpPortsCapture(ports *[]apisv1a.AdminNetworkPolicyPort, dst Peer, protocol string, port string) bool = ports == nil
+//@     || (exists q string, k int :: {deref(ports)[k], foldEq(q, protocol)} isProto(q) && foldEq(q, protocol) && 0 <= k && k < len(deref(ports)) && anpRulePortMatch(deref(ports)[k], dst, q, atoiVal(port)))
+
+//@ func anpPortContains
+//@   requires realDst(dst) && dyntype(dst, *PodPeer) && validAPs(rulePorts)
+//@   hint loop1.preserve.none: inv.none, inv.idx, call*.*, requires
+//@   ensures [C03,C02] all: rulePorts == nil ==> (res0 && res1 == nil)
+//@   ensures [C03,C02] def: (res1 == nil && rulePorts != nil && !(protocol == "" && port == "") && 1 <= atoiVal(port) && atoiVal(port) <= 65535) ==>
+//@         (res0 == anpPortsCapture(rulePorts, dst, protocol, port))
+//@   loop 1:
+//@     invariant idx: parseInt32Ok(port) && intPort == atoiVal(port) && rulePorts != nil
+//@     invariant none: forall k int :: {deref(rulePorts)[k]} (0 <= k && k <= rangeindex) ==>
+//@         !(exists q string :: {foldEq(q, protocol)} isProto(q) && foldEq(q, protocol) && anpRulePortMatch(deref(rulePorts)[k], dst, q, atoiVal(port)))
+
+// a rule that reports a verdict for the query has a port entry capturing it on the destination pod
+//@ func checkIfIngressRuleContainsConn
+//@   requires realDst(dst) && dyntype(dst, *PodPeer) && validAPs(rulePorts)
+//@   modifies *
+//@   ensures [C03,C02] captured: (err == nil && res != NotCaptured && !(protocol == "" && port == "") && 1 <= atoiVal(port) && atoiVal(port) <= 65535) ==>
+//@         anpPortsCapture(rulePorts, dst, protocol, port)
+//@ func checkIfEgressRuleContainsConn
+//@   requires realDst(dst) && dyntype(dst, *PodPeer) && validAPs(rulePorts)
+//@   modifies *
+//@   ensures [C03,C02] captured: (err == nil && res != NotCaptured && !(protocol == "" && port == "") && 1 <= atoiVal(port) && atoiVal(port) <= 65535) ==>
+//@         anpPortsCapture(rulePorts, dst, protocol, port)
